@@ -256,6 +256,16 @@ func main() {
 		os.Exit(2)
 	}
 	t0 := time.Now()
+	// The in-process checks evaluate many inputs in parallel; they are about input/output
+	// behaviour, not about concurrency (C12's business). Build every lazily built table once,
+	// sequentially, before any parallel phase, so that first-use construction never overlaps.
+	for l := 0; l < ref.NLang; l++ {
+		l := l
+		_ = call(func() {
+			_ = bip39.CheckMnemonic(m.Encode(make([]byte, 16), l), Langs[l])
+			_, _ = bip39.NewMnemonicByEntropy(make([]byte, 16), Langs[l])
+		})
+	}
 	func() {
 		defer func() {
 			if r := recover(); r != nil {
